@@ -42,7 +42,14 @@ def augment_exception_message_and_reraise(exception, message):
     # class's `__new__` derives from them, e.g. for exception groups) intact.
     proxy = ExceptionProxy(*exception.args)
   except TypeError:
-    proxy = ExceptionProxy()
+    try:
+      proxy = ExceptionProxy()
+    except TypeError:
+      # The class's own `__new__` accepts neither: use the `__new__` of its
+      # first base that does not define one in Python.
+      new = next(klass.__new__ for klass in type(exception).__mro__
+                 if inspect.isbuiltin(klass.__new__))
+      proxy = new(ExceptionProxy)
   # Attributes stored in C-level slots or `__slots__` (`args`, `errno`, `value`,
   # `lineno`, ...) are found on the proxy itself before `__getattr__` is ever
   # consulted, so they have to be copied over explicitly.
